@@ -102,6 +102,36 @@ def run_all(ctx, prop, quick_n, thorough_n):
     return allruns, dist
 
 
+def view_pass(ctx, prop, quick_n, thorough_n):
+    """oracle-only pass in VRT's weak-memory (release/acquire view) mode: loads may return stale values the
+    C++ model allows; no lock-step replay (stale loads are not paths of the SC model).  A weakened order or a
+    dropped fence in the source shows up here as an oracle failure, a payload race or a deadlock verdict."""
+    exe, log = build()
+    if exe is None:
+        return [], {}
+    n = quick_n if ctx.quick else thorough_n
+    seed0 = ctx.seed * 1000003 + 500000
+    dist = {"modes": {}, "verdicts": {}, "oracle": 0, "races": 0, "stale_reads": 0, "runs_with_stale": 0}
+    out = []
+    for mode, cnt, env in [("mix", n, {}), ("mix", n // 2, {"VRT_STALE": "70"}), ("comp", n // 3, {}), ("timed", n // 3, {})]:
+        e = dict(env, VRT_MEM="view", VRT_STEP_LIMIT="150000")
+        runs = ctx.econc(exe, None, [mode], seed0, cnt, env=e)
+        key = mode + "/view" + ("/stale70" if env else "")
+        dist["modes"][key] = len(runs)
+        for r in runs:
+            r["mode"], r["env"] = mode, e
+            r["text"] = "mode=%s seed=%d env=%s\n%s" % (mode, r["seed"], e, "\n".join(r["lines"][-600:]))
+            dist["verdicts"][r["verdict"]] = dist["verdicts"].get(r["verdict"], 0) + 1
+            dist["races"] += len(r["races"])
+            for l in r["lines"]:
+                if " ev stats " in l and " stale " in l:
+                    k = int(l.split(" stale ")[1].split()[0])
+                    dist["stale_reads"] += k
+                    dist["runs_with_stale"] += 1 if k else 0
+        out += runs
+    return out, dist
+
+
 def oracle_kind(r):
     return r["oracle"][0].split("ORACLE", 1)[1].split()[0]
 
